@@ -87,6 +87,7 @@ class PEval(Folder):
         self.memo = {}
         self.steps_total = 0
         self.calls_seen = {}
+        self.summaries = {}  # callee path -> model, installed by a rule for one evaluation (opaque, separately verified callees)
 
     # loops are allowed: termination is guaranteed by the step budget, and every
     # branch is on a known constant (otherwise _switch aborts with 'top')
@@ -137,6 +138,14 @@ class PEval(Folder):
                     if not 0 <= k < hi - lo:
                         raise _Abort("diverge", "index %d out of range for a slice of length %d" % (k, hi - lo))
                     v = self.heap.get(("harr", hid), lo + k)
+                elif v[0] == "symvec":
+                    if len(v) > 1 and not 0 <= k < v[1]:
+                        raise _Abort("diverge", "index %d out of range for the payload vector of length %d" % (k, v[1]))
+                    v = ("sbyte", k)
+                elif v[0] == "symslice":
+                    if not 0 <= k < v[2] - v[1]:
+                        raise _Abort("diverge", "index %d out of range for a payload slice of length %d" % (k, v[2] - v[1]))
+                    v = ("sbyte", v[1] + k)
                 else:
                     return TOP
             elif isinstance(e, dict) and "sub" in e:
@@ -147,6 +156,10 @@ class PEval(Folder):
                     v = ("hview", v[1], lo, hi)
                 elif v[0] == "hview":
                     v = ("hview", v[1], v[2] + lo, v[2] + hi)
+                elif v[0] == "symvec":
+                    v = ("symslice", lo, hi)
+                elif v[0] == "symslice":
+                    v = ("symslice", v[1] + lo, v[1] + hi)
                 else:
                     return TOP
             elif isinstance(e, dict) and "dc" in e:
@@ -268,7 +281,7 @@ class PEval(Folder):
         k = rv["k"]
         if k == "repeat":
             n = rv.get("len")
-            if n is not None and n > 8192:
+            if n is not None and n > 512:
                 return self.heap.new(n, self._operand(st, rv["op"]))
         elif k == "un" and rv["op"] == "PtrMetadata":
             a = self._operand(st, rv["a"])
@@ -279,6 +292,10 @@ class PEval(Folder):
                         return mk_int("usize", tgt[3] - tgt[2])
                     if tgt[0] == "harr":
                         return mk_int("usize", self.heap.length(tgt))
+                    if tgt[0] == "symvec" and len(tgt) > 1:
+                        return mk_int("usize", tgt[1])
+                    if tgt[0] == "symslice":
+                        return mk_int("usize", tgt[2] - tgt[1])
         elif k in ("ref", "rawptr"):
             # resolve index projections of this frame before the generic code sees them
             p = rv["p"]
@@ -416,6 +433,11 @@ class PEval(Folder):
             if callee is None:
                 raise _Abort("top", "symbolic boolean passed to %s" % name)
             self._split_on_sbit(st, name, callee, args, t)
+            return
+        if name in self.summaries:
+            v = self.summaries[name](self, st, args, t)
+            self._store(st, fidx, t["dest"], v)
+            self._enter_block(st, t["target"])
             return
         if name in PMODELS:
             v = PMODELS[name](self, st, args, t)
@@ -624,6 +646,10 @@ def _array_index(pe, st, args, t):
         n = pe.heap.length(tgt)
     elif tgt[0] == "hview":
         n = tgt[3] - tgt[2]
+    elif tgt[0] == "symvec" and len(tgt) > 1:
+        n = tgt[1]
+    elif tgt[0] == "symslice":
+        n = tgt[2] - tgt[1]
     else:
         raise _Abort("top", "indexing a non-array")
     if idx[0] == "adt" and idx[1] == "std::ops::Range":
@@ -649,6 +675,10 @@ def _array_index(pe, st, args, t):
 def _slice_len(pe, st, args, t):
     v = _deref(pe, st, args[0])
     if v != TOP:
+        if v[0] == "symvec" and len(v) > 1:
+            return mk_int("usize", v[1])
+        if v[0] == "symslice":
+            return mk_int("usize", v[2] - v[1])
         if v[0] == "array":
             return mk_int("usize", len(v[1]))
         if v[0] == "hview":
